@@ -386,55 +386,19 @@ func nulCutOf(v ssa.Value, depth int) nulCut {
 		if !ok || bt.Info()&types.IsString == 0 {
 			return bad
 		}
-		sl, isSl := x.X.(*ssa.Slice)
-		if !isSl || (sl.Low == nil && sl.High == nil) {
-			return nulCut{ok: true, root: byteRoot(x.X), wholes: 1}
-		}
-		if sl.Low != nil || sl.Max != nil {
-			return bad
-		}
-		root := byteRoot(sl.X)
-		out := nulCut{ok: true, root: root}
-		var walk func(h ssa.Value, d int) bool
-		walk = func(h ssa.Value, d int) bool {
-			if ph, ok := h.(*ssa.Phi); ok && d < 4 {
-				for _, e := range ph.Edges {
-					if !walk(e, d+1) {
-						return false
-					}
+		// `if i := bytes.IndexByte(b, 0); i != -1 { b = b[:i] }; return string(b)`: the converted bytes are chosen by a φ
+		if ph, isPhi := x.X.(*ssa.Phi); isPhi && depth < 4 {
+			out := nulCut{ok: true}
+			for _, e := range ph.Edges {
+				// string(e) for each alternative: a synthetic conversion is not needed, the slice cases below only look at e
+				out.merge(nulCutOfBytes(e, depth+1))
+				if !out.ok {
+					return bad
 				}
-				return true
 			}
-			if src, ok := nulIndexOf(h); ok {
-				if src != root {
-					return false
-				}
-				out.cuts++
-				return true
-			}
-			if lo := lenOperand(h); lo != nil && byteRoot(lo) == root {
-				out.wholes++
-				return true
-			}
-			if k, ok := intConst(h); ok {
-				out.wholes++
-				full := int64(-1)
-				if al, ok := root.(*ssa.Alloc); ok {
-					if at, ok := al.Type().(*types.Pointer).Elem().Underlying().(*types.Array); ok {
-						full = at.Len()
-					}
-				}
-				if k != full {
-					out.shortFallback = true
-				}
-				return true
-			}
-			return false
+			return out
 		}
-		if !walk(sl.High, 0) {
-			return bad
-		}
-		return out
+		return nulCutOfBytes(x.X, depth)
 	case *ssa.Call:
 		g := x.Call.StaticCallee()
 		if g == nil || !inModule(g) || g.Blocks == nil || len(g.Params) != 1 || len(x.Call.Args) != 1 || (g.Object() != nil && g.Object().Exported()) {
@@ -457,4 +421,58 @@ func nulCutOf(v ssa.Value, depth int) nulCut {
 		return out
 	}
 	return bad
+}
+
+// nulCutOfBytes: what string(b) is, for a byte slice b: the whole root, or the root cut at the first zero octet
+func nulCutOfBytes(b ssa.Value, depth int) nulCut {
+	bad := nulCut{}
+	sl, isSl := b.(*ssa.Slice)
+	if !isSl || (sl.Low == nil && sl.High == nil) {
+		return nulCut{ok: true, root: byteRoot(b), wholes: 1}
+	}
+	if sl.Low != nil || sl.Max != nil {
+		return bad
+	}
+	root := byteRoot(sl.X)
+	out := nulCut{ok: true, root: root}
+	var walk func(h ssa.Value, d int) bool
+	walk = func(h ssa.Value, d int) bool {
+		if ph, ok := h.(*ssa.Phi); ok && d < 4 {
+			for _, e := range ph.Edges {
+				if !walk(e, d+1) {
+					return false
+				}
+			}
+			return true
+		}
+		if src, ok := nulIndexOf(h); ok {
+			if src != root {
+				return false
+			}
+			out.cuts++
+			return true
+		}
+		if lo := lenOperand(h); lo != nil && byteRoot(lo) == root {
+			out.wholes++
+			return true
+		}
+		if k, ok := intConst(h); ok {
+			out.wholes++
+			full := int64(-1)
+			if al, ok := root.(*ssa.Alloc); ok {
+				if at, ok := al.Type().(*types.Pointer).Elem().Underlying().(*types.Array); ok {
+					full = at.Len()
+				}
+			}
+			if k != full {
+				out.shortFallback = true
+			}
+			return true
+		}
+		return false
+	}
+	if !walk(sl.High, 0) {
+		return bad
+	}
+	return out
 }
